@@ -579,6 +579,22 @@ def _sized(d):
     return d[0] in ("l", "t", "s", "b")
 
 
+def _seq(d):
+    """a list or a tuple: what 'for v in value' walks item by item (a str was wrapped into a list before)"""
+    return d[0] in ("l", "t")
+
+
+def _fits(val, scale, lo, hi):
+    """VolumeAdjustmentSpec / VolumePeakSpec.validate: intround(value * scale) must be in range
+    -> None (fits) | the exception class (nan: int() ValueError; inf: OverflowError; out of range: ValueError)"""
+    x = val * scale
+    if x != x:
+        return "ValueError"
+    if x in (float("inf"), float("-inf")):
+        return "OverflowError"
+    return None if lo <= int(round(x)) <= hi else "ValueError"
+
+
 class EasyID3Ref(BaseRef):
     """The Easy view as coded, key by key.  `quirks[c]` True = behave as the unchanged code does for the
     known deviation class c (and record a hit when a step exercises it); False = the documented behaviour."""
@@ -660,7 +676,7 @@ class EasyID3Ref(BaseRef):
         if cls == "text":
             self.text[lk] = self._multispec_text(d)
         elif cls == "txxx":
-            if d[0] != "l":
+            if not _seq(d):
                 raise RefExc("TypeError")            # for v in value
             for x in d[1]:
                 if truthy(x):
@@ -668,10 +684,14 @@ class EasyID3Ref(BaseRef):
                         raise RefExc("TypeError")    # max(v) on a non-str
                     if any(c > "\x7f" for c in x[1]):
                         break
+            if d[0] != "l":
+                raise RefExc("ValueError")           # MultiSpec wants a list
             self.text[lk] = [pystr(x) for x in d[1]]
         elif cls == "genre":
-            if lk in self.text and d[0] != "l":
-                raise RefExc("TypeError")            # frame.genres = value iterates
+            if lk in self.text:
+                if not _seq(d):
+                    raise RefExc("TypeError")        # frame.genres = value iterates (any sequence will do)
+                d = ["l", d[1]]
             self.text[lk] = self._multispec_text(d)
         elif cls == "date":
             if d[0] != "l":
@@ -694,7 +714,7 @@ class EasyID3Ref(BaseRef):
         elif cls == "website":
             old = self.web
             self.web = []                            # id3.delall("WOAR") comes first
-            if d[0] != "l":
+            if not _seq(d):
                 if self.q["easyid3-failed-set-mutates"]:
                     if old:
                         self.hits.append("easyid3-failed-set-mutates")
@@ -708,7 +728,7 @@ class EasyID3Ref(BaseRef):
         elif cls == "perf":
             self._case_hit(cls, arg)
             self.tmcl = True                         # TMCL is created first
-            if d[0] != "l":
+            if not _seq(d):
                 raise RefExc("TypeError")
             self.people = [p for p in self.people if p[0] != arg] + [[arg, pystr(x)] for x in d[1]]
         else:
@@ -728,7 +748,7 @@ class EasyID3Ref(BaseRef):
                     val = float(w[0])
                 except ValueError:
                     raise RefExc("ValueError")
-                ok = -32768 <= int(round(val * 512)) <= 32767
+                bad = _fits(val, 512, -32768, 32767)
             else:
                 if x[0] == "s":
                     try:
@@ -741,17 +761,17 @@ class EasyID3Ref(BaseRef):
                     raise RefExc("TypeError")
                 if val >= 2 or val < 0:
                     raise RefExc("ValueError")
-                ok = 0 <= int(round(val * 32768)) <= 65535
+                bad = _fits(val, 32768, 0, 65535)    # only a nan gets this far
             created = arg not in self.rva
             if created:
                 self.rva[arg] = [0.0, 0.0]           # RVA2(gain=0, peak=0) is added before the assignment
-            if not ok:
+            if bad:
                 if created:
                     if self.q["easyid3-failed-set-mutates"]:
                         self.hits.append("easyid3-failed-set-mutates")
                     else:
                         del self.rva[arg]
-                raise RefExc("ValueError")
+                raise RefExc(bad)
             self.rva[arg][0 if cls == "gain" else 1] = val
 
     def p_del(self, key):
